@@ -1031,6 +1031,12 @@ def run(rep, tier):
              for fs, ks, r in wcases])
         wbody += "Eval vm_compute in (indices_where wmismatch wcases 0).\n"
         res = core.eval_cases(shards + [wbody], "c07", HEADER)
+        # a coqc process lost to the machine (killed under memory pressure, ...) is not a verdict: evaluate a
+        # failed shard once more on its own before reporting it
+        for si, (rc, out, err) in enumerate(res):
+            want = 1 if si == len(res) - 1 else len(QUERIES)
+            if rc != 0 or len(core.parse_eval(out)) != want:
+                res[si] = core.eval_cases([(shards + [wbody])[si]], "c07r%d" % si, HEADER)[0]
         sets = {name: set() for name, _ in QUERIES}
         bad_shard = None
         for si, (rc, out, err) in enumerate(res[:-1]):
